@@ -32,7 +32,7 @@ func checkC06(c *Ctx) {
 	c06Purity(c, p)
 	c06Exhaustive(c, p)
 	c06Apply(c, p)
-	c06Conjoin(c, p)
+	c06Conjoin(c, p, "C06/R6")
 	c06Grammar(c, p)
 	c06Views(c, p)
 	c06Memo(c, p)
@@ -934,8 +934,7 @@ func c06Apply(c *Ctx, p *Prog) {
 
 // ---- R6 ----
 
-func c06Conjoin(c *Ctx, p *Prog) {
-	const R = "C06/R6"
+func c06Conjoin(c *Ctx, p *Prog, R string) {
 	fn := p.Method("benchproc", "ProjectionParser", "Parse")
 	matchF := p.Field("benchproc", "Filter", "match")
 	fo := p.Fn("benchproc", "filterOp")
